@@ -14,6 +14,7 @@ import (
 
 	"verifharness/internal/core"
 	"verifharness/internal/fixture"
+	"verifharness/internal/gen"
 	"verifharness/internal/model"
 	"verifharness/internal/runner"
 )
@@ -26,8 +27,8 @@ func (c14) ID() string { return "C14" }
 func (c14) Meta() Meta {
 	return Meta{
 		Level:       "fault_enumeration",
-		Rule:        "(a) outline: for every native-syntax file state (base file, seeded prefixes and token edits of fixtures and generated configurations) SymbolsInFile is compared with M-sym, a direct walk of the hclsyntax AST (one symbol per written attribute/block in source order, name = attribute name or block type plus quoted labels, range = the item's extent, recursion into nested bodies, tuple elements and literally keyed object items), and every child's range must lie inside its parent's; (b) workspace: for workspaces of k <= 4 paths ALL 2^k subsets of paths whose PathContext fails are enumerated (exhaustive) and Decoder.Symbols(q) for q in {\"\", substrings of existing names including windows across the blanks and quotes that the synthesised names contain, an absent string} - one workspace has its block headers aligned with several blanks/tabs so that names are not substrings of the source text - must equal the union over the readable paths of the top-level symbols whose name contains q. distinct non-trivial = (a) file states with nesting depth >= 2, (b) (workspace, failing subset, query) with >= 1 failing and >= 1 healthy path.",
-		Assumptions: []string{"HCL's own evaluation of an object key (KeyExpr.Value(nil)) defines 'literally keyed'", "JSON files are covered by C19 (outline equality with the native rendering), not here"},
+		Rule:        "(a) outline: for every native-syntax file state (base file, seeded prefixes and token edits of fixtures and generated configurations) SymbolsInFile is compared with M-sym, a direct walk of the hclsyntax AST (one symbol per written attribute/block in source order, name = attribute name or block type plus quoted labels, range = the item's extent, recursion into nested bodies, tuple elements and literally keyed object items), and every child's range must lie inside its parent's; (b) workspace: for workspaces of k <= 4 paths ALL 2^k subsets of paths whose PathContext fails are enumerated (exhaustive) and Decoder.Symbols(q) for q in {\"\", substrings of existing names including windows across the blanks and quotes that the synthesised names contain, an absent string} - one workspace has its block headers aligned with several blanks/tabs so that names are not substrings of the source text - must equal the union over the readable paths of the top-level symbols whose name contains q. (c) JSON: generated configurations rendered in JSON syntax (generator and schema-known outline shared with C19, incl. dynamic blocks and their content): Decoder.Symbols over the JSON file must list exactly the attributes/blocks of the native rendering that the effective schema knows. distinct non-trivial = (a) file states with nesting depth >= 2, (b) (workspace, failing subset, query) with >= 1 failing and >= 1 healthy path.",
+		Assumptions: []string{"HCL's own evaluation of an object key (KeyExpr.Value(nil)) defines 'literally keyed'", "the JSON outline is compared as an unordered set of (kind, nested name) lines: JSON groups blocks by type and carries no expression symbols"},
 		Floor:       map[string]int{"quick": 60, "thorough": 300},
 		CaseBudget:  60,
 	}
@@ -35,9 +36,9 @@ func (c14) Meta() Meta {
 
 func c14Params(tier string) (nGenQ, nGenT, broken int) {
 	if tier == "thorough" {
-		return 40, 400, 40
+		return 200, 3000, 40
 	}
-	return 40, 400, 8
+	return 200, 3000, 8
 }
 
 // c14Workspaces are the multi-path workspaces for the fault enumeration.
@@ -98,9 +99,71 @@ func c14Workspace(name string) *core.Workspace {
 	return ws
 }
 
+func c14JSONUnits(tier string) int {
+	if tier == "thorough" {
+		return 6000
+	}
+	return 600
+}
+
 func (p c14) NumUnits(tier string, seed int64) int {
 	q, t, _ := c14Params(tier)
-	return len(diffSources(tier, seed, q, t)) + len(c14Workspaces())
+	return len(diffSources(tier, seed, q, t)) + len(c14Workspaces()) + c14JSONUnits(tier)
+}
+
+// runJSONOutline is part (c): a generated configuration rendered in JSON syntax
+// must yield the outline of its native rendering restricted to what the effective
+// schema knows (JSON is decoded through the schema). Generator and schema-known
+// outline are shared with C19.
+func (p c14) runJSONOutline(k int, seed int64, rep *runner.Reporter) {
+	gseed := seed*100000 + 50000 + int64(k)
+	opt := []string{"simple", "simple,deps", "simple,refs"}[k%3]
+	nat := gen.Build(gseed, opt)
+	js, ok := gen.BuildJSON(gseed, opt)
+	if !ok {
+		rep.Count("not_expressible_in_json", 1)
+		return
+	}
+	envN := nat.WS.Build(false)
+	envJ := js.WS.Build(false)
+	nb, ok := envN.PathCtx[gen.GenPath].Files["main.tf"].Body.(*hclsyntax.Body)
+	if !ok {
+		return
+	}
+	// (SymbolsInFile answers "unknown file format" for JSON files: the workspace query is the JSON outline)
+	r := envJ.Run(core.Query{Kind: core.QWorkspaceSymbols, Arg: ""})
+	rep.Eval(1)
+	if r.Panic != nil || r.Err != nil {
+		return // C01 / error paths
+	}
+	var want, got []string
+	knownOutline(nb, model.EffRoot(nat.Root), "", &want)
+	syms, _ := r.Value.([]decoder.Symbol)
+	symbolLines(syms, "", &got)
+	sort.Strings(want)
+	sort.Strings(got)
+	if strings.Join(want, "\n") != strings.Join(got, "\n") {
+		class := "differs"
+		switch {
+		case len(got) < len(want):
+			class = "symbols-missing"
+		case len(got) > len(want):
+			class = "symbols-extra"
+		}
+		rep.Violation(&runner.Witness{Sig: "JSON-OUTLINE " + class, What: "Decoder.Symbols of the JSON rendering is not the schema-known outline of the same configuration in native syntax",
+			Unit: mustJSON(map[string]interface{}{"gen_seed": gseed, "opt": opt}), Files: map[string]string{"/gen/main.tf": nat.Src, "/gen/main.tf.json": js.Src},
+			Expected: trunc(strings.Join(want, "\n"), 3000), Observed: trunc(strings.Join(got, "\n"), 3000)})
+	}
+	depth := 0
+	for _, l := range want {
+		if d := strings.Count(l, "/"); d > depth {
+			depth = d
+		}
+	}
+	if depth >= 2 {
+		rep.NonTrivial(fmt.Sprintf("json|%d", gseed))
+	}
+	rep.Count("json_outlines_compared", 1)
 }
 
 func symKind(s decoder.Symbol) string {
@@ -158,6 +221,10 @@ func symContainment(ss []model.Sym, parent *model.Sym, report func(child, parent
 func (p c14) RunUnit(idx int, tier string, seed int64, focus map[string]string, rep *runner.Reporter) {
 	q, t, broken := c14Params(tier)
 	srcs := diffSources(tier, seed, q, t)
+	if idx >= len(srcs)+len(c14Workspaces()) {
+		p.runJSONOutline(idx-len(srcs)-len(c14Workspaces()), seed, rep)
+		return
+	}
 	if idx >= len(srcs) {
 		p.runWorkspace(c14Workspaces()[idx-len(srcs)], rep)
 		return
